@@ -66,6 +66,12 @@ def main() -> None:
         r = random.Random(f"C03-macro-{run.seed}-{i}")
         g = MacroGen(r, Cfg(max_depth=2, max_block=2, max_routines=2, loops=r.random() < 0.5, terminator_prob=0.6))
         progs.append((f"macro:{run.seed}:{i}", g.macro_program(1)["flat"]))
+    # jumps, calls, terminators and loop / case control as the statement of a with-block: a context op in front of label
+    # jumps, of jumps to the label that follows, of jumps to the end of the routine (closedness and the pass models do not
+    # depend on what such a program means)
+    for i in range(300 if q else 4000):
+        r = random.Random(f"C03-withctrl-{run.seed}-{i}")
+        progs.append((f"with-ctrl:{run.seed}:{i}", Gen(r, Cfg(max_depth=2, max_block=3, max_routines=2, terminator_prob=0.5, ctx_ctrl=True)).program()))
     texts = [print_prog(p) for _, p in progs]
     # in portions: the captured op lists of all passes and the model's answers are dropped once compared
     results: list = []
